@@ -83,7 +83,8 @@ def make_formula_body(formula, default_value, assoc_value=None, indent=''):
       # We have a constant or f-string that spans multiple lines. If so, revert its indentation.
       start, end = atok.get_text_range(node)
       indented_text = atok.get_text(node)
-      unindented_text = indented_text.replace('\n' + indent, '\n')
+      # Undo exactly what _indent() did: it left whitespace-only lines alone.
+      unindented_text = re.sub(r'\n' + re.escape(indent) + r'(?=.*\S)', '\n', indented_text)
       unindent_patches.append(textbuilder.Patch(start, end, indented_text, unindented_text))
 
     return textbuilder.Replacer(builder, unindent_patches)
